@@ -1240,8 +1240,72 @@ class IterStream(Stream):
         return [case["obj"][0], "ss" if case["ss"] else "noss"]
 
 
+class TolerantStream(Stream):
+    """Lax / warn mode: a loop whose body raises a suppressed error must not disturb the helpers of later loops.
+    Metamorphic statement of "parentloop is the enclosing loop": rendering HEAD then TAIL in one template gives
+    the output of HEAD followed by the output of TAIL rendered alone (TAIL reads only its own loops' helpers).
+    Added after seeded change C13-2 (loop stack not popped when the body raises) was missed."""
+
+    name = "tolerant"
+    has_model = False
+
+    FAILS = ["{{ 1 | divided_by: 0 }}", "{{ x | nosuchfilter }}", "{% for z in (1..2) limit: 'q' %}{{ z }}{% endfor %}",
+             "{% tablerow z in (1..2) cols: 'q' %}{{ z }}{% endtablerow %}", "{{ 'a' | plus: nosuch.y | slice: 'b' }}", "{% include 'nosuch' %}"]
+    TAILS = [
+        "{% for b in (1..2) %}[{{ forloop.parentloop.index }}/{{ forloop.index }}/{{ forloop.length }}]{% endfor %}",
+        "{% for b in (1..2) %}{% for c in (1..2) %}[{{ forloop.parentloop.parentloop.index }}/{{ forloop.parentloop.index }}/{{ forloop.index }}]{% endfor %}{% endfor %}",
+        "{% for b in (1..3) %}{% if forloop.parentloop %}P{% else %}-{% endif %}{{ forloop.rindex }}{% endfor %}",
+        "{% tablerow b in (1..3) cols: 2 %}{{ tablerowloop.col }}{{ forloop.index }}{% endtablerow %}",
+    ]
+
+    def cases(self, ctx):
+        out = []
+        for mode in ("lax", "warn"):
+            for fail in self.FAILS:
+                for wrap in (0, 1, 2):
+                    head = "{{ a }}" + fail + "{{ a }}"
+                    for d in range(wrap + 1):
+                        head = "{% for a in (1.." + str(d + 2) + ") %}" + head + "{% endfor %}"
+                    if wrap == 2:
+                        head = "{% tablerow t in (1..2) %}" + head + "{% endtablerow %}"
+                    for tail in self.TAILS:
+                        out.append({"mode": mode, "head": head, "tail": tail})
+        return out
+
+    def impl(self, case):
+        import warnings
+
+        from liquid import Environment, Mode
+        from liquid.exceptions import LiquidError
+
+        env = Environment(tolerance=Mode.LAX if case["mode"] == "lax" else Mode.WARN)
+
+        def r(src):
+            try:
+                with warnings.catch_warnings():
+                    warnings.simplefilter("ignore")
+                    return env.from_string(src).render()
+            except LiquidError as e:
+                return "ERR:" + type(e).__name__
+            except Exception as e:  # noqa: BLE001
+                return "ERR!" + type(e).__name__
+
+        return {"full": r(case["head"] + "|" + case["tail"]), "head": r(case["head"]), "tail": r(case["tail"])}
+
+    def oracle(self, case, obs):
+        if obs["full"] != obs["head"] + "|" + obs["tail"]:
+            return ("tolerant|later-loop-helpers-disturbed", f"after a suppressed error inside a loop body the later loop rendered {obs['full']!r}, alone it renders {obs['tail']!r}")
+        return None
+
+    def nontrivial(self, case, obs):
+        return not obs["head"].startswith("ERR") and "[" in obs["tail"] or "P" in obs["tail"] or "-" in obs["tail"]
+
+    def tags(self, case, obs):
+        return [case["mode"], "head-err" if obs["head"].startswith("ERR") else "head-ok"]
+
+
 def streams(ctx):
-    sts = [SliceStream(), DropStream(), IterStream(), For1Stream(), TablerowStream(), ChainStream(), NestStream(), MalformedStream()]
+    sts = [SliceStream(), DropStream(), IterStream(), For1Stream(), TablerowStream(), ChainStream(), NestStream(), MalformedStream(), TolerantStream()]
     for st in sts:
         # the quick tier is ~10 s of single-core work; a process pool only pays off in the thorough tier
         st.parallel = ctx.tier == "thorough" and st.name in ("slice", "for1", "tablerow", "chain", "nest")
